@@ -974,6 +974,10 @@ func (E *Engine) snapOf(v Val) *State {
 			}
 		}
 	}
+	if len(E.snaps) == 1 {
+		// the only snapshot of this harness (its value went through a captured variable)
+		return E.snaps[E.snapCount]
+	}
 	E.fail("verif.State value is not the direct result of verif.Snapshot()")
 	return nil
 }
